@@ -86,6 +86,11 @@ CLAIMED = {
   "CueArith.tla gives for every operator in {+ - * / div mod quo rem == != < <= > >=} and every pair of 24 small numbers (ints and quarter-step decimals) the required kind, whether an error is required, and the exact result as a fraction; TLC checks the division identities and trichotomy. The harness evaluates each expression: error iff required, int exactly when the spec says so, value equal to the exact fraction (quotients rounded to 34 significant digits with math/big), and printing (CUE and JSON) reads back as the same number. (B+i) op (B+j) for i, j in -2..2 is computed symbolically in the model and instantiated at +-2^63, +-2^64, +-10^34, +-10^400. 441 structural literal spellings (bases, _ grouping, fraction, exponent, SI/IEC multipliers) must denote exactly mantissa * 10^e10 * 2^e2 with the right kind. A genuine loss of integer exactness beyond 34 digits found on the unchanged tree is recorded as known finding.",
   "trusted: TLC, math/big, the rendering; canary (perturbed expectation) must be noticed. Not covered: random operands with hundreds of digits, pkg/math beyond div/mod/quo/rem (TLC integers are 32 bit).",
   "DESIGN.md §3 C06"),
+ "C20": ("model_checking",
+  "TLA+ spec Trim.tla (package space: schema declarations x data declarations x file split; protocol P -trim-> P1 -trim-> P2) enumerated by TLC; every package trimmed twice by the cue binary built from the working tree and all three evaluated",
+  "Trim.tla enumerates packages made of 10 schema declarations (a definition, a pattern with defaults, a comprehension, an embedded defaulted disjunction, a computed field, defaults, a list schema; all of them or all but selected ones) and up to 2 (thorough 3) of 19 data declarations that repeat, refine or contradict what the schemas imply, in one file or split over two. Each package is evaluated, trimmed with `cue trim`, evaluated again - per top-level field the JSON with defaults resolved (key order ignored), the printed final form when incomplete, or ERROR must be identical - and trimmed again, which must leave the files byte-identical. An abort of the trimmer's own self-check counts as a violation.",
+  "trusted: TLC (enumeration only: the verdict is metamorphic - the package's own evaluation before trimming is the oracle), the projection; packages that are in error before trimming may be refused. The 'removed only if implied' clause is covered through the unchanged evaluation; no independent Redundant oracle was built.",
+  "DESIGN.md §3 C20"),
 }
 
 NOT_YET = "check not built yet in this round (see DESIGN.md §8 for the order of construction)"
